@@ -1,9 +1,32 @@
 import PymocaVerif.Lemmas.FlattenSpell
+import PymocaVerif.Lemmas.FlattenEx
 /-!
 # C08 — modifications take effect with Modelica precedence in either spelling
-(first part: spelling)
+
+Theorems about the reference semantics `PymocaVerif.Flatten`, for every library, target and fuel.
+
+Spelling.  Spelled modifications (`a.b(c = 1, d(e = 2)) = 3`) are desugared to `(path,
+expression)` lists before anything else looks at them; the fully nested and the fully dotted
+respelling desugar to the same list (`desugar_nested_spelling`, `desugar_dotted_spelling`), hence
+respelling a whole library never changes the outcome of flattening — flat model or rejection
+(`spelling_invariant`).
+
+Precedence.  Every flat variable carries the list `binds` of all modifications that reach it; the
+value / attribute is the *last* entry for that attribute (`flat_attributes`).
+`outermost_wins`: every entry is written in an instance that is a proper prefix of the variable's
+path, and the winner is, among the entries for the attribute, one written in the outermost
+(shortest) such instance.  `precedence_within_level`: among the modifications written in one
+instance the order is enclosing component's argument > extends clauses > declaration > type
+definition; `extends_overrides_base`: a derived class's extends clause comes after everything its
+base class attached.  `scope_of_expression`: the expression of every entry is written — on a
+component declaration or in an extends clause — in the class instantiated at the entry's scope (or
+is a literal of a type definition), and it is renamed with exactly that scope as prefix.
+`unknown_target_rejected`, `unknown_attribute_rejected`, `unknown_extends_target_rejected`:
+modifications that name no element / no attribute are rejected, never dropped.
 -/
 namespace PymocaVerif.Flatten
+
+/-! ## spelling -/
 
 /-- Desugaring does not see the spelling: the fully nested respelling of a modification list
     (`a.b.c = 1` written `a(b(c = 1))`) desugars to the same `(path, expression)` list … -/
@@ -27,10 +50,171 @@ example : desugarList [] (toDottedList [] [.mk ["a"] [.mk ["x"] [.mk ["start"] [
 theorem spelling_invariant {f : List SMod → List SMod} (hf : Respelling f) (src : SLib) (target : Path) :
     flattenSrc (respellList f src) target = flattenSrc src target := flattenSrc_respell hf src target
 
+example : Respelling toNestedList ∧ Respelling (toDottedList []) := ⟨respelling_toNested, respelling_toDotted⟩
+
 theorem spelling_invariant_nested_dotted (src : SLib) (target : Path) :
     flattenSrc (respellList toNestedList src) target = flattenSrc (respellList (toDottedList []) src) target := by
   rw [spelling_invariant respelling_toNested, spelling_invariant respelling_toDotted]
 
-example : Respelling toNestedList ∧ Respelling (toDottedList []) := ⟨respelling_toNested, respelling_toDotted⟩
+/-- `model B parameter Real p = 1; Real x; end B;  model M parameter Real p = 7; B b(x(start = p), p = 2); end M;` -/
+def exSrc : SLib :=
+  [.mk "B" "model" none [] []
+     [⟨"p", ["Real"], ["parameter"], [], [], some (.num 1)⟩, ⟨"x", ["Real"], [], [], [], none⟩] [],
+   .mk "M" "model" none [] []
+     [⟨"p", ["Real"], ["parameter"], [], [], some (.num 7)⟩,
+      ⟨"b", ["B"], [], [], [.mk ["x"] [.mk ["start"] [] (some (.ref [("p", [])]))] none, .mk ["p"] [] (some (.num 2))], none⟩] []]
+
+example : (flattenSrc (respellList toNestedList exSrc) ["M"]).toOption.isSome = true ∧
+    (flattenSrc (respellList (toDottedList []) exSrc) ["M"]).toOption =
+      (flattenSrc exSrc ["M"]).toOption := ⟨by decide +kernel, by decide +kernel⟩
+
+/-! ## precedence -/
+
+/-- The attributes and the value of a flat variable are read off its `binds`: attribute `a` is
+    present iff some entry has path `[a]`, and is then the *last* such entry's expression renamed
+    in that entry's scope; the value likewise with path `[]` (for parameters / constants; for
+    other variables it becomes a binding equation, `bindEqs`). -/
+theorem flat_attributes {fuel : Nat} {lib : Lib} {t : Path} {m : FlatModel} (h : flattenF fuel lib t = .ok m) :
+    ∃ r : List Var × List IEq, instTop fuel lib t = .ok r ∧ m.vars = r.1.map (finVar (m.vars.map (·.path))) ∧
+      ∀ v ∈ r.1, ∀ a e, (a, e) ∈ (finVar (m.vars.map (·.path)) v).attrs ↔
+        a ∈ attrNames ∧ ∃ w, lookupBind v.binds [a] = some w ∧ e = rename (m.vars.map (·.path)) w.scope w.value := by
+  obtain ⟨r, hr, rfl, htop⟩ := flattenF_ok h
+  have hnames : (assemble r).vars.map (·.path) = r.1.map (·.path) := by
+    simp [assemble, finVar, List.map_map, Function.comp_def]
+  refine ⟨r, htop, by rw [hnames]; rfl, ?_⟩
+  intro v _ a e
+  exact finVar_attr
+
+example : flattenF 6 exLib ["M"] = .ok exFlat ∧
+    (exFlat.vars.map fun v => (v.path, v.attrs, v.value))[3]? = some (["b"], [("start", .num 3)], none) ∧
+    (exFlat.vars.map fun v => (v.path, v.attrs, v.value))[0]? = some (["lb", "k"], [], some (.num 5)) :=
+  ⟨exFlat_ok, by decide +kernel, by decide +kernel⟩
+
+/-- Outermost wins.  Every modification reaching a leaf is written in an instance whose prefix is a
+    proper prefix of the leaf's path; the winner for attribute path `a` (`[]` = the binding) has
+    that path and is written in an instance at least as far out as any other entry for `a`. -/
+theorem outermost_wins {fuel : Nat} {lib : Lib} {t : Path} {r : List Var × List IEq}
+    (h : instTop fuel lib t = .ok r) {v : Var} (hv : v ∈ r.1) :
+    (∀ m ∈ v.binds, ∃ q', q' ≠ [] ∧ v.path = m.scope ++ q') ∧
+    ∀ a w, lookupBind v.binds a = some w →
+      w ∈ v.binds ∧ w.path = a ∧ ∀ m' ∈ v.binds, m'.path = a → w.scope.length ≤ m'.scope.length := by
+  have hr : instF fuel lib t [] [] [] = .ok r := by
+    unfold instTop at h
+    split at h
+    · cases h
+    · cases h
+    · exact h
+  constructor
+  · intro m hm
+    rcases inst_binds_origin hr hv hm with ⟨mo, hmo, _⟩ | ⟨q, q', c', hp, hq', hsc, _, _⟩
+    · cases hmo
+    · exact ⟨q', hq', by simpa [hsc] using hp⟩
+  · intro a w hw
+    obtain ⟨hsorted, _⟩ := inst_binds_sorted hr List.Pairwise.nil (by intro m hm; cases hm) hv
+    obtain ⟨hpath, l1, l2, hsplit, hno⟩ := lookupBind_some hw
+    refine ⟨by rw [hsplit]; simp, hpath, ?_⟩
+    intro m' hm' hpa
+    rw [hsplit] at hm' hsorted
+    rcases List.mem_append.mp hm' with hm' | hm'
+    · exact (List.pairwise_append.mp hsorted).2.2 m' hm' w (by simp)
+    · cases hm' with
+      | head => exact Nat.le_refl _
+      | tail _ hm'' => exact absurd hpa (hno m' hm'')
+
+example : ∃ r, instTop 6 exLib ["M"] = .ok r ∧ ∃ v ∈ r.1, v.binds.length = 2 := by
+  have h : ((instTop 6 exLib ["M"]).toOption.map fun r => r.1.any fun v => v.binds.length == 2) = some true := by
+    decide +kernel
+  cases hr : instTop 6 exLib ["M"] with
+  | error e => rw [hr] at h; simp [Except.toOption] at h
+  | ok r =>
+    rw [hr] at h
+    simp only [Except.toOption, Option.map_some, Option.some.injEq, List.any_eq_true] at h
+    obtain ⟨v, hv, hl⟩ := h
+    exact ⟨r, rfl, v, hv, by simpa using hl⟩
+
+/-- Inside one instance: the arguments handed down by the enclosing component override the extends
+    clauses, which override the declaration's own modification, which overrides the type
+    definitions (`tm`). -/
+theorem precedence_within_level (P : Path) (k : Comp) (ext : List (List Mod)) (outer tm : List MMod) (a : Path) :
+    lookupBind (tm ++ allMods P k ext outer) a =
+      (lookupBind (outer.filterMap (MMod.strip k.name)) a).or
+        ((lookupBind ((ext.flatten.filterMap (Mod.strip k.name)).map (Mod.here P)) a).or
+          ((lookupBind (k.mods.map (Mod.here P)) a).or (lookupBind tm a))) := by
+  simp only [allMods, lookupBind_append, Option.or_assoc]
+
+example : lookupBind ([] ++ allMods [] (Comp.mk "x" (.builtin "Real") [] [] [⟨["start"], .num 1⟩])
+    [[⟨["x", "start"], .num 2⟩]] [⟨["x", "start"], ["outer"], .num 3⟩, ⟨["y", "start"], [], .num 4⟩]) ["start"]
+    = some ⟨["start"], ["outer"], .num 3⟩ := by decide
+
+/-- An extends clause's modifications override the base class's own: a member inherited through
+    `extends b(ms)` carries `ms` *after* every extends-clause list the base class attached to it
+    (and all of those come after the member's declaration modifications, `precedence_within_level`). -/
+theorem extends_overrides_base {f : Nat} {lib : Lib} {p b : Path} {d : ClassDef} {ms : List Mod} {all : List Member}
+    (hp : lib.find p = some d) (he : (Ty.cls b, ms) ∈ d.exts) (h : membersF f lib p = .ok all) :
+    ∃ f' base, f = f' + 1 ∧ membersF f' lib b = .ok base ∧
+      ∀ x ∈ base, ({ comp := x.comp, ext := x.ext ++ [ms] } : Member) ∈ all := members_inherit hp he h
+
+example : Lib.find exLib ["M"] = some exM ∧ (Ty.cls ["Base"], [Mod.mk ["b", "start"] (.num 3)]) ∈ exM.exts ∧
+    (membersF 5 exLib ["M"]).toOption.isSome = true := ⟨rfl, by decide, by decide +kernel⟩
+
+/-- Modification expressions are resolved in the scope where they are written: for every entry
+    of a leaf's `binds`, the class instantiated at the entry's scope contains the expression as a
+    modification (on a component declaration — own or inherited — or in an extends clause), or the
+    expression is a literal of a type definition; the flat model renames it with exactly that
+    scope as prefix (`flat_attributes`, `rename`). -/
+theorem scope_of_expression {fuel : Nat} {lib : Lib} {t : Path} {r : List Var × List IEq}
+    (h : instTop fuel lib t = .ok r) {v : Var} (hv : v ∈ r.1) {m : MMod} (hm : m ∈ v.binds) :
+    ∃ c q', q' ≠ [] ∧ v.path = m.scope ++ q' ∧ InstAt lib t m.scope c ∧
+      (WrittenIn lib c m.value ∨ m.value.isLiteral = true) := by
+  have hr : instF fuel lib t [] [] [] = .ok r := by
+    unfold instTop at h
+    split at h
+    · cases h
+    · cases h
+    · exact h
+  rcases inst_binds_origin hr hv hm with ⟨mo, hmo, _⟩ | ⟨q, q', c', hp, hq', hsc, hi, hw⟩
+  · cases hmo
+  · simp at hsc hp
+    subst hsc
+    exact ⟨c', q', hq', hp, hi, hw⟩
+
+example : rename [["p"], ["b", "p"], ["b", "x"]] [] (.ref [("p", [])]) = .fref ["p"] [] ∧
+    rename [["p"], ["b", "p"], ["b", "x"]] ["b"] (.ref [("p", [])]) = .fref ["b", "p"] [] := by decide
+
+/-! ## rejections -/
+
+/-- A modification handed to an instance that names no element of the class is rejected
+    (at every level of the instance tree: every level is a call of `instF`). -/
+theorem unknown_target_rejected {f : Nat} {lib : Lib} {c P : Path} {outer : List MMod} {dims : List Nat}
+    {ms : List Member} (hms : membersF f lib c = .ok ms) (hdup : dupName (ms.map (·.comp.name)) = none)
+    {m : MMod} (hm : m ∈ outer) (hbad : MMod.headIn (ms.map (·.comp.name)) m = false) :
+    ∃ p, instF (f + 1) lib c P outer dims = .error (.unknownTarget p) := by
+  obtain ⟨b, hb, _⟩ := firstBad_some (p := fun m => !(MMod.headIn (ms.map (·.comp.name)) m)) hm (by simp [hbad])
+  exact ⟨b.path, by simp [instF, hms, hdup, hb]⟩
+
+example : ∃ p, instF 6 exLib ["Leaf"] ["lb"] [⟨["nosuch"], [], .num 1⟩] [] = .error (.unknownTarget p) :=
+  ⟨["nosuch"], by decide +kernel⟩
+
+/-- A modification that reaches a leaf but is neither its binding nor one of its attributes is rejected. -/
+theorem unknown_attribute_rejected {P : Path} {k : Comp} {b : String} {tms : List (List Mod)} {all tm : List MMod}
+    {dims : List Nat} (htm : typeMods P tms = .ok tm) {m : MMod} (hm : m ∈ tm ++ all)
+    (hbad : okLeafPath m.path = false) : ∃ p, mkLeaf P k b tms all dims = .error (.badAttr p) := by
+  obtain ⟨x, hx, _⟩ := firstBad_some (p := fun m => !(okLeafPath m.path)) hm (by simp [hbad])
+  exact ⟨x.path, by simp [mkLeaf, htm, hx]⟩
+
+example : ∃ p, mkLeaf [] (Comp.mk "x" (.builtin "Real") [] [] []) "Real" [] [⟨["foo"], [], .num 1⟩] [] =
+    .error (.badAttr p) := ⟨["foo"], by decide⟩
+
+/-- An extends-clause modification that names no element of the base class is rejected. -/
+theorem unknown_extends_target_rejected {elem : Ty → Except Err (Option (String × List (List Mod)))}
+    {rec : Path → Except Err (List Member)} {b : Path} {mods : List Mod} {base : List Member}
+    (he : elem (.cls b) = .ok none) (hb : rec b = .ok base) {m : Mod} (hm : m ∈ mods)
+    (hbad : Mod.headIn (base.map (·.comp.name)) m = false) :
+    ∃ p, inheritStep elem rec (.cls b, mods) = .error (.unknownTarget p) := by
+  obtain ⟨x, hx, _⟩ := firstBad_some (p := fun m => !(Mod.headIn (base.map (·.comp.name)) m)) hm (by simp [hbad])
+  exact ⟨x.path, by simp [inheritStep, he, hb, hx]⟩
+
+example : ∃ p, inheritStep (elemOf 5 exLib) (membersF 5 exLib) (.cls ["Base"], [⟨["zz", "start"], .num 1⟩]) =
+    .error (.unknownTarget p) := ⟨["zz", "start"], by decide +kernel⟩
 
 end PymocaVerif.Flatten
